@@ -106,7 +106,9 @@ def layout_checks(d, spec=None):
 def layout_cases(draw, tier):
     cls = draw(st.sampled_from(["monoidal", "rigid"]))
     spec = draw(gen.diagrams(cls, max_boxes=10 if tier == "thorough" else 8,
-                             max_width=6, max_dom=4, names=["a", "b"]))
+                             max_width=draw(st.sampled_from([6, 9])),
+                             max_dom=4, names=["a", "b"],
+                             max_arity=draw(st.sampled_from([3, 5]))))
     return {"d": spec}
 
 
